@@ -371,6 +371,107 @@ M('cache-clear-after-early-return', 'fault', ['C01', 'C02', 'C03', 'C06', 'C07',
    (PY, "        if child.parent.remove_child(child, index, self.logical_block_size):\n            return self.logical_block_size\n\n        return 0\n", "        if child.parent.remove_child(child, index, self.logical_block_size):\n            return self.logical_block_size\n\n        self._find_iso_record.cache_clear()  # pylint: disable=no-member\n        self._find_rr_record.cache_clear()  # pylint: disable=no-member\n        self._find_joliet_record.cache_clear()  # pylint: disable=no-member\n        return 0\n")], '_remove_child_from_dr')
 
 
+# ---- round 3 of the seeded regressions: rules added for the ones that were missed
+D1_OLD = "    for char in bytearray(name):\n        if char not in _allowed_d1_characters:\n            raise pycdlibexception.PyCdlibInvalidInput('ISO9660 filenames must consist of characters A-Z, 0-9, and _')\n"
+D1_RAISE = "        raise pycdlibexception.PyCdlibInvalidInput('ISO9660 filenames must consist of characters A-Z, 0-9, and _')\n"
+D1_SET = "_allowed_d1_characters = set(tuple(range(65, 91)) + tuple(range(48, 58)) + tuple((ord(b'_'),)))\n"
+M('d1-regex-dollar-accepts-trailing-newline', 'fault', ['C13'], ['SA-GATE.d1'],
+  [(PY, "import os\nimport struct\n", "import os\nimport re\nimport struct\n"), (PY, D1_SET, "_d1_re = re.compile(br'^[A-Z0-9_]*$')\n"),
+   (PY, D1_OLD, "    if not _d1_re.match(name):\n" + D1_RAISE)], 'trailing newline')
+M('d1-regex-plus-refuses-empty-extension', 'fault', ['C13', 'C18'], ['SA-GATE.d1', 'SA-GATE.d1.total'],
+  [(PY, "import os\nimport struct\n", "import os\nimport re\nimport struct\n"), (PY, D1_SET, "_d1_re = re.compile(br'[A-Z0-9_]+')\n"),
+   (PY, D1_OLD, "    if _d1_re.fullmatch(name) is None:\n" + D1_RAISE)], 'at least 1 character')
+M('d1-set-lacks-underscore', 'fault', ['C13', 'C18'], ['SA-GATE.d1', 'SA-GATE.d1.total'],
+  [(PY, D1_SET, "_allowed_d1_characters = set(tuple(range(65, 91)) + tuple(range(48, 58)))\n")], 'refuses the d-characters _')
+M('d1-set-admits-lower-case', 'fault', ['C13'], ['SA-GATE.d1'],
+  [(PY, D1_SET, "_allowed_d1_characters = set(tuple(range(65, 91)) + tuple(range(97, 123)) + tuple(range(48, 58)) + tuple((ord(b'_'),)))\n")], 'not d-characters')
+M('d1-check-skipped-for-extension', 'fault', ['C13'], ['SA-GATE.d1'],
+  [(PY, "    if interchange_level < 4:\n        _check_d1_characters(name)\n        _check_d1_characters(extension)\n\n\ndef _check_iso9660_directory", "    if interchange_level < 4:\n        _check_d1_characters(name)\n\n\ndef _check_iso9660_directory")], 'extension')
+M('d1-check-only-at-level-one', 'fault', ['C13'], ['SA-GATE.d1'],
+  [(PY, "    if interchange_level < 4:\n        _check_d1_characters(fullname)\n", "    if interchange_level < 2:\n        _check_d1_characters(fullname)\n")], 'interchange_level < 2')
+M('twin-d1-regex-exact', 'twin', ['C13', 'C18', 'C20'], [],
+  [(PY, "import os\nimport struct\n", "import os\nimport re\nimport struct\n"), (PY, D1_SET, "_d1_re = re.compile(br'^[A-Z0-9_]*\\Z')\n"),
+   (PY, D1_OLD, "    if not _d1_re.match(name):\n" + D1_RAISE)])
+M('twin-d1-fullmatch', 'twin', ['C13', 'C18', 'C20'], [],
+  [(PY, "import os\nimport struct\n", "import os\nimport re\nimport struct\n"), (PY, D1_SET, "_d1_re = re.compile(br'[\\d_A-Z]*')\n"),
+   (PY, D1_OLD, "    if _d1_re.fullmatch(name) is None:\n" + D1_RAISE)])
+M('twin-d1-all-generator', 'twin', ['C13', 'C18', 'C20'], [],
+  [(PY, D1_OLD, "    if not all(char in _allowed_d1_characters for char in bytearray(name)):\n" + D1_RAISE)])
+M('twin-d1-set-difference', 'twin', ['C13', 'C18', 'C20'], [],
+  [(PY, D1_SET, "_allowed_d1_characters = frozenset(b'ABCDEFGHIJKLMNOPQRSTUVWXYZ0123456789_')\n"),
+   (PY, D1_OLD, "    if set(bytearray(name)) - _allowed_d1_characters:\n" + D1_RAISE)])
+
+M('eltorito-entry-registered-on-one-branch-only', 'fault', ['C11', 'C07', 'C02'], ['SA-PAIR.link_inode'],
+  [(PY, "                self.inodes.append(ino)\n\n            ino.linked_records.append((entry, False))\n            entry.set_inode(ino)\n", "                self.inodes.append(ino)\n                ino.linked_records.append((entry, False))\n\n            entry.set_inode(ino)\n")], 'only on some')
+M('twin-eltorito-entry-registered-after-set-inode', 'twin', ['C11', 'C07', 'C02'], [],
+  [(PY, "            ino.linked_records.append((entry, False))\n            entry.set_inode(ino)\n", "            entry.set_inode(ino)\n            ino.linked_records.append((entry, False))\n")])
+
+GPT_SLOTS = "    __slots__ = ('_initialized', 'is_primary', 'header', 'parts', 'apm_parts')\n"
+M('gpt-partition-crc-memoised', 'fault', ['C12'], ['SA-CSUM.fresh.hybrid'],
+  [(ISOH, GPT_SLOTS, "    __slots__ = ('_initialized', 'is_primary', 'header', 'parts', 'apm_parts', '_parts_crc')\n"),
+   (ISOH, "        self.apm_parts = []  # type: List[APMPartHeader]\n        self._initialized = False\n", "        self.apm_parts = []  # type: List[APMPartHeader]\n        self._parts_crc = None  # type: Optional[int]\n        self._initialized = False\n"),
+   (ISOH, "        part_data = b''.join(tmplist)\n\n        if self.is_primary:\n            outlist = [self.header.record(crc32(part_data))]", "        part_data = b''.join(tmplist)\n        if self._parts_crc is None:\n            self._parts_crc = crc32(part_data)\n\n        if self.is_primary:\n            outlist = [self.header.record(self._parts_crc)]"),
+   (ISOH, "            outlist.append(self.header.record(crc32(part_data)))\n", "            outlist.append(self.header.record(self._parts_crc))\n")], 'without having computed it in this call')
+M('twin-gpt-partition-crc-stored-fresh-each-call', 'twin', ['C12'], [],
+  [(ISOH, GPT_SLOTS, "    __slots__ = ('_initialized', 'is_primary', 'header', 'parts', 'apm_parts', '_parts_crc')\n"),
+   (ISOH, "        self.apm_parts = []  # type: List[APMPartHeader]\n        self._initialized = False\n", "        self.apm_parts = []  # type: List[APMPartHeader]\n        self._parts_crc = 0\n        self._initialized = False\n"),
+   (ISOH, "        part_data = b''.join(tmplist)\n\n        if self.is_primary:\n            outlist = [self.header.record(crc32(part_data))]", "        part_data = b''.join(tmplist)\n        self._parts_crc = crc32(part_data)\n\n        if self.is_primary:\n            outlist = [self.header.record(self._parts_crc)]"),
+   (ISOH, "            outlist.append(self.header.record(crc32(part_data)))\n", "            outlist.append(self.header.record(self._parts_crc))\n")])
+M('twin-gpt-partition-crc-in-a-local', 'twin', ['C12'], [],
+  [(ISOH, "        part_data = b''.join(tmplist)\n\n        if self.is_primary:\n            outlist = [self.header.record(crc32(part_data))]", "        part_data = b''.join(tmplist)\n        parts_crc = crc32(part_data)\n\n        if self.is_primary:\n            outlist = [self.header.record(parts_crc)]"),
+   (ISOH, "            outlist.append(self.header.record(crc32(part_data)))\n", "            outlist.append(self.header.record(parts_crc))\n")])
+M('validation-entry-platform-settable-after-checksum', 'fault', ['C11'], ['SA-CSUM.fresh.eltorito'],
+  [(ELT, "    def _record(self):\n        # type: () -> bytes\n        \"\"\"\n        An internal method to generate a string representing this El Torito\n        Validation Entry.", "    def set_platform(self, platform_id):\n        # type: (int) -> None\n        self.platform_id = platform_id\n\n    def _record(self):\n        # type: () -> bytes\n        \"\"\"\n        An internal method to generate a string representing this El Torito\n        Validation Entry.")], 'platform_id')
+
+M('facade-snapshots-interchange-level', 'fault', ['C18'], ['SA-SNAPSHOT.facade'],
+  [("pycdlib/facade.py", "    __slots__ = ('pycdlib_obj',)\n\n    def __init__(self, pycdlib_obj):\n        # type: (pycdlib.PyCdlib) -> None\n        self.pycdlib_obj = pycdlib_obj\n\n    def get_file_from_iso(self, local_path, iso_path):", "    __slots__ = ('pycdlib_obj', 'level')\n\n    def __init__(self, pycdlib_obj):\n        # type: (pycdlib.PyCdlib) -> None\n        self.pycdlib_obj = pycdlib_obj\n        self.level = pycdlib_obj.interchange_level\n\n    def get_file_from_iso(self, local_path, iso_path):")], 'interchange_level')
+M('facade-snapshots-has-rock-ridge', 'fault', ['C18'], ['SA-SNAPSHOT.facade'],
+  [("pycdlib/facade.py", "    __slots__ = ('pycdlib_obj',)\n\n    def __init__(self, pycdlib_obj):\n        # type: (pycdlib.PyCdlib) -> None\n        self.pycdlib_obj = pycdlib_obj\n\n    def get_file_from_iso(self, local_path, iso_path):", "    __slots__ = ('pycdlib_obj', 'rr')\n\n    def __init__(self, pycdlib_obj):\n        # type: (pycdlib.PyCdlib) -> None\n        self.pycdlib_obj = pycdlib_obj\n        rr = pycdlib_obj.has_rock_ridge()\n        self.rr = rr\n\n    def get_file_from_iso(self, local_path, iso_path):")], 'has_rock_ridge')
+M('twin-facade-second-reference-to-the-object', 'twin', ['C18'], [],
+  [("pycdlib/facade.py", "    __slots__ = ('pycdlib_obj',)\n\n    def __init__(self, pycdlib_obj):\n        # type: (pycdlib.PyCdlib) -> None\n        self.pycdlib_obj = pycdlib_obj\n\n    def get_file_from_iso(self, local_path, iso_path):", "    __slots__ = ('pycdlib_obj', 'iso')\n\n    def __init__(self, pycdlib_obj):\n        # type: (pycdlib.PyCdlib) -> None\n        self.pycdlib_obj = pycdlib_obj\n        self.iso = pycdlib_obj\n\n    def get_file_from_iso(self, local_path, iso_path):")])
+
+M('gmtoffset-memoised-per-hour', 'fault', ['C19'], ['SA-DATE.instant'],
+  [(DT, "class DirectoryRecordDate:\n", "_OFFSETS = {}  # type: ignore\n\n\ndef gmtoffset_for(tm, local):\n    # type: (float, time.struct_time) -> int\n    key = int(tm) // 3600\n    if key not in _OFFSETS:\n        _OFFSETS[key] = utils.gmtoffset_from_tm(tm, local)\n    return _OFFSETS[key]\n\n\nclass DirectoryRecordDate:\n"),
+   (DT, "        self.second = local.tm_sec\n        self.gmtoffset = utils.gmtoffset_from_tm(tm, local)\n        self._initialized = True\n", "        self.second = local.tm_sec\n        self.gmtoffset = gmtoffset_for(tm, local)\n        self._initialized = True\n")], 'gmtoffset_for')
+M('twin-gmtoffset-through-a-forwarder', 'twin', ['C19'], [],
+  [(DT, "class DirectoryRecordDate:\n", "def gmtoffset_for(tm, local):\n    # type: (float, time.struct_time) -> int\n    \"\"\"Forwarder.\"\"\"\n    return utils.gmtoffset_from_tm(tm, local)\n\n\nclass DirectoryRecordDate:\n"),
+   (DT, "        self.gmtoffset = utils.gmtoffset_from_tm(tm, local)\n        self._initialized = True\n", "        self.gmtoffset = gmtoffset_for(tm, local)\n        self._initialized = True\n"),
+   (DT, "            self.gmtoffset = utils.gmtoffset_from_tm(tm, local)\n", "            self.gmtoffset = gmtoffset_for(tm, local)\n")])
+
+M('prevalidation-of-udf-path-under-elif', 'fault', ['C14'], ['SA-VBM.prevalidate'],
+  [(PY, "            self._joliet_name_and_parent_from_path(self._normalize_joliet_path(joliet_path))\n        if udf_path:\n            if self.udf_root is None:", "            self._joliet_name_and_parent_from_path(self._normalize_joliet_path(joliet_path))\n        elif udf_path:\n            if self.udf_root is None:")], 'only runs when')
+M('prevalidation-of-directory-paths-skips-empty-string', 'fault', ['C14'], ['SA-VBM.prevalidate'],
+  [(PY, "        if joliet_path is not None:\n            self._joliet_name_and_parent_from_path(self._normalize_joliet_path(joliet_path))\n        if udf_path is not None:\n            if self.udf_root is None:", "        if joliet_path:\n            self._joliet_name_and_parent_from_path(self._normalize_joliet_path(joliet_path))\n        if udf_path:\n            if self.udf_root is None:")], 'only runs when')
+M('twin-prevalidation-result-checked', 'twin', ['C14'], [],
+  [(PY, "            self._joliet_name_and_parent_from_path(self._normalize_joliet_path(joliet_path))\n        if udf_path:\n            if self.udf_root is None:", "            self._joliet_name_and_parent_from_path(self._normalize_joliet_path(joliet_path))\n        if not udf_path:\n            pass\n        else:\n            if self.udf_root is None:")])
+
+M('parse-error-message-from-exception-args', 'fault', ['C15'], ['SA-EXC.format'],
+  [(PY, "            fp.close()\n            raise pycdlibexception.PyCdlibInvalidISO('Failed to parse ISO: %s' % (str(e)))\n", "            fp.close()\n            raise pycdlibexception.PyCdlibInvalidISO('Failed to parse ISO: %s' % (e.args))\n")], 'args tuple')
+M('message-with-one-argument-too-few', 'fault', ['C15'], ['SA-EXC.format'],
+  [(PY, "'ISO9660 directory names at interchange level %d cannot exceed %d characters' % (interchange_level, maxlen)", "'ISO9660 directory names at interchange level %d cannot exceed %d characters' % (maxlen)")], 'directives but a single argument')
+M('twin-parse-error-message-from-one-tuple', 'twin', ['C15'], [],
+  [(PY, "            fp.close()\n            raise pycdlibexception.PyCdlibInvalidISO('Failed to parse ISO: %s' % (str(e)))\n", "            fp.close()\n            raise pycdlibexception.PyCdlibInvalidISO('Failed to parse ISO: %s' % (e.args,))\n")])
+
+M('boot-catalog-test-on-raw-extent', 'fault', ['C16', 'C07'], ['SA-IDENT.sanitized'],
+  [(PY, "if self.eltorito_boot_catalog is not None and extent_to_use == self.eltorito_boot_catalog.extent_location():", "if self.eltorito_boot_catalog is not None and new_extent_loc == self.eltorito_boot_catalog.extent_location():")], 'raw `new_extent_loc`')
+M('inode-map-lookup-on-raw-extent', 'fault', ['C16', 'C07'], ['SA-IDENT.sanitized'],
+  [(PY, "                        if len_to_use > 0 and extent_to_use in extent_to_inode:\n                            ino = extent_to_inode[extent_to_use]", "                        if len_to_use > 0 and extent_to_use in extent_to_inode:\n                            ino = extent_to_inode[new_extent_loc]")], 'raw `new_extent_loc`')
+
+M('layout-guard-only-when-bytes-were-added', 'fault', ['C17'], ['SA-GUARD.layout'],
+  [(PY, "                self.udf_logical_volume_integrity.size_tables[0] += num_extents_to_add\n\n        self._layout_changed = True\n", "                self.udf_logical_volume_integrity.size_tables[0] += num_extents_to_add\n\n        if num_bytes_to_add + num_partition_bytes_to_add > 0:\n            self._layout_changed = True\n")], 'stays False')
+M('layout-guard-lowered-by-force-consistency', 'fault', ['C17'], ['SA-GUARD.layout'],
+  [(PY, "    def force_consistency(self):", "    def _forget_changes(self):\n        # type: () -> None\n        self._layout_changed = False\n\n    def force_consistency(self):")], 'outside re-initialisation')
+M('twin-layout-guard-raised-first', 'twin', ['C17'], [],
+  [(PY, "                self.udf_logical_volume_integrity.size_tables[0] += num_extents_to_add\n\n        self._layout_changed = True\n\n        if self._always_consistent:", "                self.udf_logical_volume_integrity.size_tables[0] += num_extents_to_add\n\n        if self._always_consistent:"),
+   (PY, "        for pvd in self.pvds:\n            pvd.add_to_space_size(num_bytes_to_add + num_partition_bytes_to_add)\n", "        self._layout_changed = True\n        for pvd in self.pvds:\n            pvd.add_to_space_size(num_bytes_to_add + num_partition_bytes_to_add)\n")])
+
+M('tool-normalises-udf-symlink-target', 'fault', ['C20'], ['SA-SIB.tool_symlink'],
+  [(GEN, "                        udf_target = os.readlink(localpath)\n", "                        udf_target = os.path.normpath(os.readlink(localpath))\n")], 'verbatim')
+M('twin-tool-reads-link-once', 'twin', ['C20'], [],
+  [(GEN, "                    rr_target = None\n                    if args.rational_rock or args.rock:\n                        rr_target = os.readlink(localpath)\n", "                    target = os.readlink(localpath)\n                    rr_target = None\n                    if args.rational_rock or args.rock:\n                        rr_target = target\n"),
+   (GEN, "                        udf_target = os.readlink(localpath)\n", "                        udf_target = target\n")])
+
+
 def applicable(m, sources):
     for rel, old, new in m['edits']:
         src = sources.get(rel)
